@@ -1,8 +1,8 @@
 package props
 
 import (
-	crand "crypto/rand"
 	"bytes"
+	crand "crypto/rand"
 	"crypto/sha256"
 	"fmt"
 	"io"
